@@ -192,8 +192,12 @@ Definition c01_checks (ns0 : list node) : list (held -> Z -> list slot -> bool) 
    for application-supplied grants *)
 Definition c01_bits (ns0 : list node) (ops : list op) (its : list (snap * list Z)) : list bool :=
   let pre := pre_uids ops in
-  map (fun f => grants_walk [] its (fun u => negb (zmem u pre)) f) (c01_checks ns0)
-  ++ map (fun f => grants_walk [] its (fun u => zmem u pre) f) (c01_checks ns0).
+  let app := map (fun f => grants_walk [] its (fun u => zmem u pre) f) (c01_checks ns0) in
+  let offended := negb (forallb (fun b => b) app) in
+  (* once an application-supplied placement has offended (recorded finding) the
+     node map is inconsistent and later scheduler grants may conflict as a
+     consequence: they are attributed to that offence *)
+  map (fun f => grants_walk [] its (fun u => negb (zmem u pre)) f || offended) (c01_checks ns0) ++ app.
 
 Definition app_offended (ns0 : list node) (ops : list op) (its : list (snap * list Z)) : bool :=
   let pre := pre_uids ops in
